@@ -82,6 +82,10 @@ def worker(args, scratch):
                 status = "error:%r" % (e,)
             if pi == slen - 1:
                 conn.close()
+            if common.is_timeout(status):
+                if not res.get("inconclusive"):
+                    res.setdefault("inconclusive", []).append("client socket watchdog fired while waiting for the proxy; not a verdict")
+                continue
             res["evaluations"] += 1
             relayed = got_hash.get(vid)
             wit = {"id": vid, "class": cls, "method": method, "target": target, "declared_by": decl, "length": length, "limit": limit, "status": status,
